@@ -59,6 +59,10 @@ LEVEL_TEXTS = {
 }
 
 
+LAYOUT_CHECKS = set("C01 C02 C03 C04 C05 C06 C08 C09 C10 C12 C15 C18 C19 "
+	"C20".split())
+
+
 def main():
 	props = [json.loads(l) for l in open(os.path.join(HERE,
 		"properties.jsonl"))]
@@ -85,7 +89,12 @@ def main():
 					or "The real functions are executed on enumerated small "
 					"scopes and seeded hostile workloads while an oracle "
 					"independent of the implementation judges every observed "
-					"return value / exception.") + " Verdict: held on the "
+					"return value / exception.") + (" Caller tensors are "
+					"handed over in several memory layouts (contiguous, "
+					"transposed storage, offset and strided views)." if pid
+					in LAYOUT_CHECKS else "") + " Every fifth unit of the "
+					"plan is repeated in a process whose torch default dtype "
+					"is float64. Verdict: held on the "
 					"executions observed (counts in the evidence file), "
 					"violated with a replay file, or inconclusive when a "
 					"required monitor saw too little.",
